@@ -16,7 +16,9 @@ func c09Scenarios(tier string) []*Scenario {
 	kinds := []string{"counter", "gauge", "timer", "histogram", "tagged", "subscope", "mixed", "tagged+victim", "tagged+stale", "two-long-identities", "gauge+lookup",
 		// first uses of DIFFERENT names of one scope at the same time: of two kinds (whatever the kinds share - a list of
 		// what to report, say - must take both), and two of the same kind (a table that is copied on write must not lose one)
-		"counter+gauge", "two-timers", "two-histograms"}
+		"counter+gauge", "two-timers", "two-histograms",
+		// derivations that add nothing, on a root without prefix and tags (the one scope whose registry key is empty)
+		"root-identity"}
 	type variant struct {
 		kind    string
 		cached  bool
@@ -84,6 +86,15 @@ func c09Scenarios(tier string) []*Scenario {
 							m.Update(7)
 						}
 						objs[i] = m
+					case "root-identity":
+						var c tally.Scope
+						if i == 0 {
+							c = s.Tagged(nil)
+						} else {
+							c = s.Tagged(map[string]string{})
+						}
+						c.Counter("x").Inc(val)
+						objs[i] = c
 					case "counter+gauge":
 						if i == 0 {
 							s.Counter("x").Inc(val)
@@ -234,6 +245,10 @@ func c09Scenarios(tier string) []*Scenario {
 				}
 				if n < 1 || n > v.threads {
 					return "gauge-lost", fmt.Sprintf("%d gauge deliveries for %d updates", n, v.threads), "viol"
+				}
+			case "root-identity":
+				if cl, d := counterOracle(log, map[string]int64{pre + "x{}": total}, -1, true); cl != "" {
+					return cl, d, "viol"
 				}
 			case "counter+gauge":
 				if cl, d := counterOracle(log, map[string]int64{pre + "x{}": 1}, -1, true); cl != "" {
